@@ -429,33 +429,45 @@ def check_powm1_exact_path(run, ix):
     sum_accurately([x**y, -1]), which raises the precision by the observed cancellation and -- since the repair of
     its non-termination -- gives up and returns 0 once the sum is still exactly zero at 100*prec + 1000 bits.  For an
     operand whose difference from a root of unity lies deeper than that (x = -(1 + 2**-10000), y = 2) the answer 0 is
-    wrong.  For an integer exponent the power is a finite binary number; powm1 must therefore reach that fallback
-    only after a branch under `ctx.isint(y)` that (a) sets the working precision from the exponent AND the bit span
-    of x, restoring it in a finally clause, (b) forms x**n - one there, (c) returns the result."""
-    run.rule('E-X4', floor=3, desc='powm1 computes integer powers exactly before the cancelling subtraction')
+    wrong.  For an integer exponent the power is a finite binary number; a zero coming out of the summation must
+    therefore be re-examined: the value of sum_accurately is not returned directly, but under `not w and
+    ctx.isint(y)` a branch (a) sets the working precision from the exponent AND the bit span of x, restoring it in a
+    finally clause, (b) assigns x**n - one formed there to the same variable, which is then returned."""
+    run.rule('E-X4', floor=3, desc='powm1 re-examines a zero of the cancelling summation for integer exponents')
     f = ix.func('mpmath/functions/functions.py', 'powm1')
     par = f.params
-    fall = [r for r in _walk_own(f.node) if isinstance(r, ast.Return) and r.value is not None and
-            'sum_accurately' in norm(r.value)]
-    if not fall:
+    direct = [r for r in _walk_own(f.node) if isinstance(r, ast.Return) and r.value is not None and
+              'sum_accurately' in norm(r.value)]
+    stores = [a for a in _walk_own(f.node) if isinstance(a, ast.Assign) and 'sum_accurately' in norm(a.value) and
+              isinstance(a.targets[0], ast.Name)]
+    if not direct and not stores:
         raise AnalysisError('powm1: the sum_accurately fallback was not found')
+    if direct:
+        run.fail(Finding('E-X4', f.file, f.qualname, norm(direct[0]),
+                         'the value of the cancelling summation is returned as it is: once x**y - 1 vanishes at '
+                         '100*prec + 1000 bits it is 0 although x**y != 1 (powm1(-(1 + 2**-10000), 2))',
+                         line=direct[0].lineno))
+        return
+    w = stores[0].targets[0].id
     branch = None
     for x in f.node.body:
-        if isinstance(x, ast.If) and x.lineno < fall[0].lineno and \
-                norm(x.test).replace(' ', '') in ('%s.isint(%s)' % (par[0], par[2]),):
-            branch = x
+        if isinstance(x, ast.If) and x.lineno > stores[0].lineno:
+            cs = [norm(c).replace(' ', '') for c in (x.test.values if isinstance(x.test, ast.BoolOp) and
+                                                     isinstance(x.test.op, ast.And) else [x.test])]
+            if 'not%s' % w in cs and '%s.isint(%s)' % (par[0], par[2]) in cs:
+                branch = x
     if branch is None:
-        run.fail(Finding('E-X4', f.file, f.qualname, norm(fall[0]),
-                         'the cancelling fallback is reached for integer exponents as well: once x**y - 1 vanishes at '
-                         '100*prec + 1000 bits it returns 0 although x**y != 1 (powm1(-(1 + 2**-10000), 2))',
-                         line=fall[0].lineno))
+        run.fail(Finding('E-X4', f.file, f.qualname, norm(stores[0]),
+                         'a zero of the cancelling summation is not re-examined for integer exponents (no branch under '
+                         '`not %s and %s.isint(%s)`): powm1(-(1 + 2**-10000), 2) is 0 although x**y != 1'
+                         % (w, par[0], par[2]), line=stores[0].lineno))
         return
-    run.ok('E-X4', 'powm1 has a branch for integer exponents before the cancelling fallback')
+    run.ok('E-X4', 'a zero of the summation is re-examined for integer exponents: `if %s`' % norm(branch.test, 50))
     sets = [a for a in ast.walk(branch) if isinstance(a, ast.Assign) and norm(a.targets[0]) == '%s.prec' % par[0]]
     tries = [t for t in ast.walk(branch) if isinstance(t, ast.Try) and t.finalbody]
     raised = [a for a in sets if any(a in list(ast.walk(t_)) for t in tries for t_ in t.body)]
-    restored = any(isinstance(s, ast.Assign) and norm(s.targets[0]) == '%s.prec' % par[0] and
-                   isinstance(s.value, ast.Name) for t in tries for s in t.finalbody)
+    restored = any(isinstance(s_, ast.Assign) and norm(s_.targets[0]) == '%s.prec' % par[0] and
+                   isinstance(s_.value, ast.Name) for t in tries for s_ in t.finalbody)
     names = set()
     for a in raised:
         todo = [a.value]
@@ -470,25 +482,27 @@ def check_powm1_exact_path(run, ix):
                             todo.append(d.value)
         names |= seen
     uses_exponent = par[2] in names
-    uses_size = par[1] in names and any(isinstance(c, ast.Subscript) or (isinstance(c, ast.Attribute) and c.attr == '_mpf_')
-                                        for a in ast.walk(branch) if isinstance(a, (ast.Assign,))
+    uses_size = par[1] in names and any(isinstance(c, ast.Attribute) and c.attr == '_mpf_'
+                                        for a in ast.walk(branch) if isinstance(a, ast.Assign)
                                         for c in ast.walk(a.value))
     if raised and restored and uses_exponent and uses_size:
         run.ok('E-X4', 'working precision of the exact power derived from the exponent and the bit span of x: `%s`'
                % norm(raised[0], 60))
     else:
         run.fail(Finding('E-X4', f.file, f.qualname, norm(raised[0]) if raised else norm(branch.test),
-                         'the integer-exponent branch does not set (and restore) a working precision computed from both '
-                         'the exponent and the size of x: the power is not exact and the subtraction can still cancel '
+                         'the re-examination does not set (and restore) a working precision computed from both the '
+                         'exponent and the size of x: the power is not exact and the subtraction can still cancel '
                          'completely', line=branch.lineno))
-    power = any(isinstance(b, ast.BinOp) and isinstance(b.op, ast.Sub) and norm(b.right) in ('one', '1') and
-                isinstance(b.left, (ast.Name, ast.BinOp)) for t in tries for s in t.body for b in ast.walk(s))
-    rets = [r for r in ast.walk(branch) if isinstance(r, ast.Return) and r.value is not None]
-    if power and rets:
-        run.ok('E-X4', 'the exact power minus one is formed at that precision and returned')
+    power = any(isinstance(a, ast.Assign) and norm(a.targets[0]) == w and isinstance(a.value, ast.BinOp) and
+                isinstance(a.value.op, ast.Sub) and norm(a.value.right) in ('one', '1')
+                for t in tries for s_ in t.body for a in ast.walk(s_))
+    last = f.node.body[-1]
+    if power and isinstance(last, ast.Return) and norm(last.value) == w:
+        run.ok('E-X4', 'the exact power minus one replaces the zero and is returned')
     else:
-        run.fail(Finding('E-X4', f.file, f.qualname, norm(branch.test), 'the integer-exponent branch does not return '
-                         'x**n - 1 formed at the raised precision', line=branch.lineno))
+        run.fail(Finding('E-X4', f.file, f.qualname, norm(branch.test), 'the re-examination does not replace the zero '
+                         'by x**n - 1 formed at the raised precision (or the function does not return it)',
+                         line=branch.lineno))
 
 
 # --------------------------------------------------------------------------- E-X2
